@@ -58,8 +58,11 @@ func AlwaysReturnsError(p *core.Program, fn *types.Func) bool {
 			ok = false
 			return
 		}
-		if !NonNilError(p, w, ret.Results[len(ret.Results)-1], f) {
-			ok = false
+		last := ret.Results[len(ret.Results)-1]
+		if !NonNilError(p, w, last, f) {
+			if id, isId := ast.Unparen(last).(*ast.Ident); !isId || !DefinedByErrorCtor(p, fd, id) {
+				ok = false
+			}
 		}
 	}
 	w.WalkBody(fd.Decl.Body, nil)
